@@ -35,7 +35,8 @@ def _unwrap(e):
 
 
 class ElemExec:
-    def __init__(self, tu, where="", consts: dict | None = None, max_inline=3, null_pointers=(), nonnull_pointers=()):
+    def __init__(self, tu, where="", consts: dict | None = None, max_inline=3, null_pointers=(), nonnull_pointers=(), opaque=()):
+        self.opaque = set(opaque)  # callees kept as uninterpreted functions of their scalar arguments
         self.null_pointers = set(null_pointers)  # pointer parameters assumed NULL: `if (p)` takes the else arm
         self.nonnull_pointers = set(nonnull_pointers)
         self.tu = tu
@@ -75,6 +76,7 @@ class State:
         self.ret = None
         self.local_arrays: set = set()
         self.level: dict = {}  # scalar name -> generic-loop depth at its last plain assignment
+        self.guards: list = []  # indicator factors of the data-dependent conditions that enclose the current statement
 
     # -- expressions --------------------------------------------------------
     def base_and_idx(self, e):
@@ -88,23 +90,79 @@ class State:
             raise AnalysisError(f"{self.ex.where}::{self.fname}: subscript base not a plain array: {cast.text(e)}")
         return cur["referencedDecl"]["name"], tuple(sp.expand(x) for x in reversed(idx))
 
+    def _unify(self, pat, lvs, idx):
+        """Match a stored cell pattern (subscripts over the generic loop variables lvs) against a concrete subscript.
+        Returns a substitution dict, False (provably a different cell) or None (cannot tell)."""
+        if len(pat) != len(idx):
+            return False
+        sub = {}
+        eqs = []
+        for p, x in zip(pat, idx):
+            if p == x:
+                continue
+            pv = [v for v in lvs if p.has(v)]
+            if not pv:
+                d = sp.expand(p - x)
+                if d == 0:
+                    continue
+                # different polynomials in the sizes / per-call indices denote different cells (generic sizes and
+                # indices: the dense row-major addressing that makes this true is rule R13h)
+                return False
+            if p in lvs and p.is_Symbol:
+                if p in sub and sp.expand(sub[p] - x) != 0:
+                    return False
+                sub[p] = x
+                continue
+            eqs.append(sp.expand(p - x))
+        if not eqs:
+            return sub
+        unknowns = [v for v in lvs if v not in sub and any(e_.has(v) for e_ in eqs)]
+        eqs = [e_.subs(sub) for e_ in eqs]
+        # the equation must hold for all values of the size symbols that multiply the loop variables
+        sizes = set()
+        for e_ in eqs:
+            for v in unknowns:
+                sizes |= sp.expand(e_).coeff(v).free_symbols
+        sizes -= set(unknowns)
+        system = []
+        for e_ in eqs:
+            if sizes:
+                try:
+                    P = sp.Poly(sp.expand(e_), *sorted(sizes, key=str))
+                except sp.PolynomialError:
+                    return None
+                system += [c for c in P.coeffs()]
+            else:
+                system.append(e_)
+        if not unknowns:
+            return sub if all(sp.expand(c) == 0 for c in system) else (False if any(sp.expand(c).is_number and sp.expand(c) != 0 for c in system) else None)
+        try:
+            sol = sp.solve(system, unknowns, dict=True)
+        except Exception:
+            return None
+        if not sol:
+            return False
+        if len(sol) != 1 or any(v not in sol[0] for v in unknowns):
+            return None
+        for v, val in sol[0].items():
+            # loop variables are integers: a fractional constant offset means another cell
+            for t in sp.Add.make_args(sp.expand(val)):
+                c, rest = t.as_coeff_Mul()
+                if c.is_Rational and not c.is_Integer:
+                    if rest == 1:
+                        return False  # a fractional constant offset: another cell
+                    return None  # depends on the residue of a generic index: cannot tell
+            sub[v] = val
+        return sub
+
     def read_cell(self, base, idx):
         for pat, lvs, val in reversed(self.cells.get(base, [])):
-            if len(pat) != len(idx):
+            m = self._unify(pat, lvs, idx)
+            if m is None:
+                raise AnalysisError(f"{self.ex.where}::{self.fname}: cannot decide whether {base}{[str(x) for x in idx]} is the cell {base}{[str(x) for x in pat]} written earlier")
+            if m is False:
                 continue
-            sub = {}
-            ok = True
-            for p, x in zip(pat, idx):
-                if p in lvs and p.is_Symbol:
-                    if p in sub and sub[p] != x:
-                        ok = False
-                        break
-                    sub[p] = x
-                elif p != x and sp.expand(p - x) != 0:  # subscripts are polynomials: expansion decides equality
-                    ok = False
-                    break
-            if ok:
-                return val.subs(sub, simultaneous=True) if sub else val
+            return val.subs(m, simultaneous=True) if m else val
         if base in self.local_arrays and base not in self.alias:
             # a cell of a local array that no statement wrote: shows up in the closed form as uninitialised_<array>(...)
             return sp.Function(f"uninitialised_{base}")(*idx)
@@ -159,6 +217,8 @@ class State:
                 return MATH[nm](self.expr(args[0]))
             if nm == "pow" and len(args) == 2:
                 return self.expr(args[0]) ** self.expr(args[1])
+            if nm in self.ex.opaque:
+                return sp.Function(nm)(*[self.expr(a) for a in args])
             if nm in self.ex.tu.functions and self.depth < self.ex.max_inline:
                 callee = self.ex.tu.functions[nm]
                 sc, al = {}, {}
@@ -184,8 +244,16 @@ class State:
         raise AnalysisError(f"{self.ex.where}::{self.fname}: expression kind {k}: {cast.text(e)}")
 
     # -- statements ---------------------------------------------------------
+    def guard_factor(self):
+        g = sp.Integer(1)
+        for x in self.guards:
+            g = g * x
+        return g
+
     def store(self, lhs, val, op="="):
         lhs = _unwrap(lhs)
+        if self.guards and op in ("+=", "-="):
+            val = val * self.guard_factor()
         if lhs.get("kind") == "DeclRefExpr":
             nm = lhs["referencedDecl"]["name"]
             if op == "=":
@@ -212,6 +280,8 @@ class State:
             lvs = tuple(lv for lv, _, _ in self.loopvars)
             idx_syms = set().union(*[x.free_symbols for x in idx]) if idx else set()
             ckey = (base, tuple(str(x) for x in idx))
+            if self.guards and op == "=" and (base in self.alias or base not in self.local_arrays):
+                raise AnalysisError(f"{self.ex.where}::{self.fname}: plain store into '{base}' under a data-dependent condition is outside the modelled fragment")
             if op == "=":
                 new = val
                 self.level[ckey] = len(self.loopvars)
@@ -230,7 +300,52 @@ class State:
             return
         raise AnalysisError(f"{self.ex.where}::{self.fname}: lvalue {cast.text(lhs)}")
 
+    def cond_factor(self, e, positive):
+        """Indicator (0/1) factor of a C condition as a sympy expression: ind_gt(x) = [x > 0], ind_ge, ind_ne, ind_eq;
+        conjunction = product."""
+        e = _unwrap(e)
+        k, op = e.get("kind"), e.get("opcode")
+        if k == "UnaryOperator" and op == "!":
+            return self.cond_factor(cast.kids(e)[0], not positive)
+        if k == "BinaryOperator" and op in ("&&", "||"):
+            a, b = cast.kids(e)
+            if (op == "&&") == positive:
+                return self.cond_factor(a, positive) * self.cond_factor(b, positive)
+            # not (a && b) = 1 - [a][b];  a || b = 1 - [not a][not b]
+            return 1 - self.cond_factor(a, not positive) * self.cond_factor(b, not positive)
+        if k == "BinaryOperator" and op in ("<", ">", "<=", ">=", "==", "!="):
+            a, b = (self.expr(x) for x in cast.kids(e))
+            if op in ("<", "<="):
+                a, b, op = b, a, {"<": ">", "<=": ">="}[op]
+            if not positive:
+                if op in (">", ">="):
+                    a, b, op = b, a, {">": ">=", ">=": ">"}[op]
+                else:
+                    op = {"==": "!=", "!=": "=="}[op]
+            name = {">": "ind_gt", ">=": "ind_ge", "==": "ind_eq", "!=": "ind_ne"}[op]
+            d = sp.expand(a - b)
+            if name in ("ind_eq", "ind_ne") and d.could_extract_minus_sign():
+                d = -d
+            return sp.Function(name)(d)
+        raise AnalysisError(f"{self.ex.where}::{self.fname}: condition '{cast.text(e)[:50]}' has no indicator form")
+
     def block(self, stmts) -> bool:
+        pushed = 0
+        try:
+            return self._block(stmts)
+        finally:
+            pass
+
+    def _block(self, stmts) -> bool:
+        pushed = 0
+        n_guards = len(self.guards)
+        try:
+            return self._block2(stmts)
+        finally:
+            del self.guards[n_guards:]
+
+    def _block2(self, stmts) -> bool:
+        pushed = 0
         for s in stmts:
             k = s.get("kind")
             ks = cast.kids(s)
@@ -282,7 +397,30 @@ class State:
                     if arm is not None and self.block([arm]):
                         return True
                     continue
-                raise AnalysisError(f"{self.ex.where}::{self.fname}: data-dependent branch '{cast.text(ks[0])[:50]}' is outside the modelled fragment")
+                # data-dependent condition: indicator factors on the accumulations it encloses
+                then = ks[1]
+                els = ks[2] if len(ks) > 2 else None
+                tstm = cast.kids(then) if then.get("kind") == "CompoundStmt" else [then]
+                if els is None and len(tstm) == 1 and tstm[0].get("kind") == "ContinueStmt":
+                    # `if (c) continue;` guards the rest of this loop body with not-c
+                    self.guards.append(self.cond_factor(ks[0], False))
+                    pushed += 1
+                    continue
+                before = dict(self.scalars)
+                self.guards.append(self.cond_factor(ks[0], True))
+                self.block([then])
+                self.guards.pop()
+                if els is not None:
+                    self.guards.append(self.cond_factor(ks[0], False))
+                    self.block([els])
+                    self.guards.pop()
+                # scalars plainly assigned under the condition have no single value afterwards
+                for nm_, v_ in list(self.scalars.items()):
+                    if before.get(nm_) is not v_ and nm_ not in before:
+                        pass
+                    elif nm_ in before and before[nm_] is not v_ and self.level.get(nm_) == len(self.loopvars) and not isinstance(v_, sp.Basic):
+                        del self.scalars[nm_]
+                continue
             if k == "CallExpr":
                 nm = cast.callee_name(s)
                 if nm in ("free", "printf", "fprintf"):
@@ -311,9 +449,11 @@ class State:
                 self.scalars[var] = sp.Integer(v)
                 self.block([body])
             return
-        sym = sp.Symbol(f"{var}", integer=True)
-        if any(sym == lv for lv, _, _ in self.loopvars):
-            sym = sp.Symbol(f"{var}_{len(self.loopvars)}", integer=True)
+        # a fresh symbol per generic loop: the first loop over `var` keeps the plain name, later ones get a suffix
+        self.used_names = getattr(self, "used_names", {})
+        cnt = self.used_names.get(var, 0)
+        self.used_names[var] = cnt + 1
+        sym = sp.Symbol(var if cnt == 0 else f"{var}_{cnt + 1}", integer=True)
         self.scalars[var] = sym
         self.loopvars.append((sym, lo, hi))
         self.block([body])
